@@ -510,7 +510,20 @@ def _validated_after(prog, fn, store_stmt, value) -> bool:
     sn = cfg.node_of(store_stmt)
     for node in ast.walk(fn.node):
         if isinstance(node, ast.If) and node.body and isinstance(node.body[-1], ast.Raise):
-            f = Normaliser(None, None).quant(node.test, True)
+            from .common import deref_expr as _dxv
+
+            # the bounds may be read through locals bound once to the attributes (lb = self.lower_bounds)
+            class _B(ast.NodeTransformer):
+                def visit_Name(self, n_):
+                    if n_.id != root and isinstance(n_.ctx, ast.Load):
+                        d_ = _dxv(prog, fn, n_)
+                        if canon(d_) in ("self.upper_bounds", "self.lower_bounds"):
+                            return d_
+                    return n_
+
+            import copy as _cp
+
+            f = Normaliser(None, None).quant(_B().visit(_cp.deepcopy(node.test)), True)
             ds = {show(d) for d in top_disjuncts(f)}
             if f"ANY[self.upper_bounds < {root}]" in ds and f"ANY[{root} < self.lower_bounds]" in ds:
                 tn = cfg.head_of(node)
